@@ -382,9 +382,13 @@ class Explorer:
                     s.add(to_z3(c))
                 w = self._flip(p, s, e.pclen, e.f)
                 if w == "unsat":
+                    # no witness with these decisions satisfies the assumption: the alternatives of the decisions
+                    # taken so far are still to be explored
                     self.stats["aborted"] += 1
+                    self._schedule(p, work)
                 elif w is None:
                     self.undecided.append("assumption: " + core.show(e.f)[:200])
+                    self._schedule(p, work)
                 else:
                     work.append((forced, w))
                 continue
